@@ -21,18 +21,18 @@ var c06Corruptions = []string{
 }
 
 type c06Prog struct {
-	Op        string `json:"op"` // put | part
-	Mode      string `json:"mode"`
-	Corrupt   string `json:"corrupt"`
-	Existing  bool   `json:"existing"`
-	Size      int    `json:"size"`
-	Chunks    []int  `json:"chunks,omitempty"`
-	Algo      string `json:"algo,omitempty"`
-	WithMD5   bool   `json:"with_md5,omitempty"`
-	CkHeader  string `json:"ck_header,omitempty"`
-	Pos       int    `json:"pos"` // position selector for flip / trunc (per mille of the relevant region)
-	FragMode  int    `json:"frag,omitempty"`
-	DataSeed  uint64 `json:"data_seed"`
+	Op       string `json:"op"` // put | part
+	Mode     string `json:"mode"`
+	Corrupt  string `json:"corrupt"`
+	Existing bool   `json:"existing"`
+	Size     int    `json:"size"`
+	Chunks   []int  `json:"chunks,omitempty"`
+	Algo     string `json:"algo,omitempty"`
+	WithMD5  bool   `json:"with_md5,omitempty"`
+	CkHeader string `json:"ck_header,omitempty"`
+	Pos      int    `json:"pos"` // position selector for flip / trunc (per mille of the relevant region)
+	FragMode int    `json:"frag,omitempty"`
+	DataSeed uint64 `json:"data_seed"`
 }
 
 type c06 struct{ baseCheck }
